@@ -231,4 +231,20 @@ PROPS["C10"] = {
     "explanation": "counters and sort key proved, naming rules bounded",
 }
 
+PROPS["C05"] = {
+    "level": "other",
+    "technique": "deductive verification of format_agp / format_tpf (one line per row with the specified columns) and of parse_agp / parse_tpf (per-line postcondition: exactly one row, homed where the line says, built from its columns, or an error), column-level round-trip lemmas; lexing by uninterpreted functions with stated axioms; bounded text round trips and corruptions as cross-check of the lexing axioms",
+    "level_text": "Proved for files of any length: every iteration of the writers emits exactly the line of its row (AGP: columns agp_cols; TPF: tpf_cols incl. the TYPE-2/TYPE-3/upper-case-dash gap types) and a newline; every non-blank, non-comment line makes parse_agp / parse_tpf add exactly one row - to the scaffold named by the line (a new scaffold exactly when the name changes), for TPF GAP lines to the current scaffold - whose fields are read from the line's columns (int() of the coordinate columns, strand tables, tags = columns 10.., gap type tables), or raises; blank and comment lines add nothing. Lemmas: the columns written for a row parse back to the same row (AGP incl. tags; TPF for strands +/- and AGP gap types), int(str(n)) == n, the two gap-type translation tables are characterwise inverse. Trusted lexing axioms: a line built as '\\t'.join(columns) + newline splits back into the same columns when the columns are carriable; the TPF name pattern splits name:start-end at the last ':'.  Known finding: C05-scaffold-name-hash.",
+    "level_note": "The whole-text statement (byte-for-byte re-formatting, header lines, AGP->TPF->AGP) is the composition of the per-line contracts over the loop semantics plus the lexing axioms; it is cross-checked on real text by the bounded tier, which also validates the axioms against CPython. asm_format.process_fh is dispatch only (bounded).",
+    "lemmas": ["c05_agp_columns_roundtrip", "c05_tpf_columns_roundtrip", "c05_gap_type_tables"],
+    "bounded": [("bounded.c05", {})],
+    "trusted": LIST_TRUSTED + [
+        "lexing axioms: re.match(r'\\s*$'), str.startswith('#'), str.rstrip().split('\\t') and the TPF name pattern are uninterpreted functions of the line; '\\t'.join is an uninterpreted function of the column list",
+        "int(s) succeeds on [0-9]+ and int(str(n)) == n for n >= 0; str(n) is the decimal rendering",
+        "sequential composition of per-iteration postconditions over a for loop",
+    ],
+    "assumptions": ["carriable assemblies (DESIGN.md C05): names non-empty without tab/newline/CR and not starting with '#', consecutive scaffolds differently named, tags non-empty without whitespace, coordinates and gap lengths >= 0"],
+    "explanation": "writers and parsers proved per line at column level; text-level composition and lexing axioms bounded",
+}
+
 NOT_APPLICABLE = {}
